@@ -19,7 +19,7 @@ RULE = ('bounded exhaustive enumeration of source texts, each parsed by the real
         '1..len+1 constructed directly; (nesting) parenthesis/unary/call nesting to the depth bound in every statement kind; '
         '(contin) backslash runs 1..8 with the fault in every piece; (bsonly) backslash-only physical lines before every piece of '
         'a continued statement and as the last lines of the input; (linechars) FF, VT, FS, GS, RS, NEL, U+2028, U+2029 and a lone CR '
-        'inside a comment, a string literal and as white space, before and on a faulty line; (includes) every sequence of <= 4 lines over three include lines, an assignment, a comment and a blank, at top level and in a function body; (openers) unclosed-block scenarios whose opening line is continued over 1..3 fragments; (overlap) faulty lines whose faulty expression text also occurs earlier in the line; (crlines) fault lines given as an iterable of CR-terminated lines or as a str ending in a lone CR; (prefix) every prefix of 1..3 comment/blank/statement '
+        'inside a comment, a string literal and as white space, before and on a faulty line; (includes) every sequence of <= 4 lines over three include lines, an assignment, a comment and a blank, at top level and in a function body; (openers) unclosed-block scenarios whose opening line is continued over 1..3 fragments; (overlap) faulty lines whose faulty expression text also occurs earlier in the line; (crlines) fault lines given as an iterable of CR-terminated lines or as a str ending in a lone CR; (numlit) number-literal near misses in every expression position of every statement kind and through parse_expression; (prefix) every prefix of 1..3 comment/blank/statement '
         'lines x start line {1,7} on base texts of the other families. A case is non-trivial when the text is rejected '
         '(keywords, soup, mutants, prefix), when the line is long enough to be elided (columns, caret), when the depth '
         'exceeds 1 or the text is faulty (nesting, contin, bsonly, linechars).')
@@ -443,14 +443,20 @@ def program(case):
     return gen.shipped()[case['prog']]
 
 
+NUM_SUFFIXES = ('e', 'e+', 'E5', 'em', '.', '_0')     # glued to the right of a number token: 1001e, 1001e+, 1001E5, 1001em, 1001., 1001_0
+
+
 def program_mutations(lines, every_token=True):
     """All mutation descriptors of a program, simplest first."""
     muts = [['none']]
     for n, line in enumerate(lines):
         if blocks.is_comment(line):
             continue
-        _, ops = gen.line_mutations(line, every_token, n)
+        spans, ops = gen.line_mutations(line, every_token, n)
         muts.extend([op, n, i] for op, i in ops)
+        for i, (a, _) in enumerate(spans):
+            if line[a].isdigit():
+                muts.extend(['suf', n, i, k] for k in range(len(NUM_SUFFIXES)))
     for n, line in enumerate(lines):
         if blocks.classify(line) in ('endif', 'endwhile', 'endfor', 'endfunction'):
             muts.append(['closer', n])
@@ -459,7 +465,8 @@ def program_mutations(lines, every_token=True):
 
 
 def count_mutations(lines, every_token=True):
-    """Closed form of len(program_mutations(lines)): per code line with n tokens 3n-1 mutants (or 3, or 2 when n == 1)."""
+    """Closed form of len(program_mutations(lines)): per code line with n tokens 3n-1 mutants (or 3, or 2 when n == 1), plus
+    len(NUM_SUFFIXES) per number token."""
     total = 2
     for line in lines:
         if blocks.is_comment(line):
@@ -467,6 +474,7 @@ def count_mutations(lines, every_token=True):
         n = len(gen.lex(line))
         if n:
             total += (3 * n - 1) if every_token else (3 if n >= 2 else 2)
+        total += len(NUM_SUFFIXES) * sum(1 for a, _ in gen.lex(line) if line[a].isdigit())
         if line.strip() in ('endif', 'endwhile', 'endfor', 'endfunction'):
             total += 1
     return total
@@ -485,6 +493,10 @@ def apply_mutation(lines, mut):
         del out[mut[1]]
         return out, set()
     n, i = mut[1], mut[2]
+    if op == 'suf':
+        end = gen.lex(lines[n])[i][1]
+        out[n] = lines[n][:end] + NUM_SUFFIXES[mut[3]] + lines[n][end:]
+        return out, {n}
     out[n] = gen.mutate_line(lines[n], gen.lex(lines[n]), op, i)
     return out, {n}
 
@@ -1489,6 +1501,95 @@ def fam_crlines(kinds):
 
 
 # ---------------------------------------------------------------------------------------------------------------------
+# (m) number-literal near misses: digit runs followed by letters, incomplete exponents, odd spellings
+
+NUM_TOKENS = (
+    '1e', '1e+', '1e-', '1E', '2.5E-', '1e5', '1E5', '1E+5', '1e+5', '10em', '1else', '1elif', '5endif', '2e)', '1.', '1..2', '.5', '1.5.2', '1.e+2',
+    '1_000', '0x10', '1e+400', '1e-400', '-1e+400', '00', '-', '+', '+1', '-1e', '1e++2', '1ee2', '1e+2e+2', '1e+' + '9' * 40, '9' * 400, '1.' + '0' * 400,
+    '\u0967\u0968', '1e+\u0663', '\u00b2', '1\uff11',      # Devanagari 12, exponent with an Arabic-Indic digit, superscript two, 1 + fullwidth 1
+)
+NUM_PLACES = ('{n}', '1 + {n}', '{n} + 1', 'ff({n})', 'ff(1, {n}, 2)', '(2){n}', "'s'{n}", 'aa {n}', '7{n}', '-{n}', '1 +{n}', 'aa{n}')
+NUM_CONTEXTS = STMT_KINDS + ('pexpr',)
+
+
+def text_numlit(case):
+    expr = NUM_PLACES[case['place']].format(n=NUM_TOKENS[case['tok']])
+    kind = NUM_CONTEXTS[case['ctx']]
+    if kind == 'pexpr':
+        return expr
+    return '\n'.join(wrap(kind, '  ' + HEADS[kind] + expr + CLOSE[kind]))
+
+
+def run_expression(text):
+    impl()
+    if 'pexpr' not in _IMPL:
+        from bare_script.parser import parse_expression  # pylint: disable=import-outside-toplevel,import-error
+        _IMPL['pexpr'] = parse_expression
+    try:
+        model = _IMPL['pexpr'](text)
+    except _IMPL['err'] as exc:
+        return 'err', exc
+    except BaseException as exc:  # pylint: disable=broad-exception-caught
+        if isinstance(exc, (KeyboardInterrupt, SystemExit)):
+            raise
+        return 'host', exc
+    if not isinstance(model, dict):
+        return 'host', TypeError(f'parse_expression returned {type(model).__name__}')
+    return 'ok', {'statements': [{'expr': {'expr': model}}]}
+
+
+def check_numlit(case, acc):
+    text = text_numlit(case)
+    kind = NUM_CONTEXTS[case['ctx']]
+    start = case['start']
+    res = run_expression(text) if kind == 'pexpr' else run(text, start)
+    acc.evals += 1
+    detail = dict(case, text=text if len(text) < 200 else text[:120] + ' ...', token=NUM_TOKENS[case['tok']][:40])
+    if res[0] == 'host':
+        acc.violation(detail, 'a model or BareScriptParserError', obs(res), 'another exception escapes the parser (number-literal near miss)')
+        return ('host',)
+    if res[0] == 'ok':
+        if kind != 'pexpr':
+            prob = accounting_problem(res[1], blocks.logical_lines(text))
+            if prob is not None:
+                acc.violation(detail, prob[0], prob[1], prob[2])
+        return ('ok', len(numbers_in(res[1])))
+    exc = res[1]
+    if kind == 'pexpr':
+        col = getattr(exc, 'column_number', None)
+        if getattr(exc, 'line', None) != text:
+            acc.violation(detail, text, getattr(exc, 'line', None), 'parse_expression error: line is not the expression text')
+        elif not isinstance(col, int) or isinstance(col, bool) or not 1 <= col <= len(text) + 1:
+            acc.violation(detail, f'1 <= column_number <= {len(text) + 1}', col, 'parse_expression error: column_number is outside the text')
+        else:
+            prob = caret_problem(str(exc), text, col)
+            if prob is not None:
+                acc.violation(detail, prob[0], prob[1], prob[2])
+        return ('err', 'pexpr')
+    prob = diag_problem(exc, start, blocks.logical_lines(text), {2}, None, acc)
+    if prob is not None:
+        acc.violation(detail, prob[0], prob[1], prob[2])
+    return ('err', kind)
+
+
+def fam_numlit(toks):
+    acc = Acc('numlit')
+    seen = Seen(acc)
+    for tok in toks:
+        for place in range(len(NUM_PLACES)):
+            for ctx, kind in enumerate(NUM_CONTEXTS):
+                for start in ((1,) if kind == 'pexpr' else STARTS):
+                    acc.cases += 1
+                    out = check_numlit({'tok': tok, 'place': place, 'ctx': ctx, 'start': start}, acc)
+                    seen.add(out)
+                    if out[0] == 'err':
+                        acc.nontrivial += 1
+        if len(acc.samples) < 2 and len(NUM_TOKENS[tok]) < 12:
+            acc.sample({'token': NUM_TOKENS[tok], 'text': text_numlit({'tok': tok, 'place': 4, 'ctx': 3}), 'alone': check_numlit({'tok': tok, 'place': 0, 'ctx': 8, 'start': 1}, Acc('x'))[0]})
+    return acc.result()
+
+
+# ---------------------------------------------------------------------------------------------------------------------
 # (f) prefix metamorphosis
 
 PREFIX_LINES = ('# c', '', 'zz = 1')
@@ -1614,7 +1715,7 @@ def families(tier):
                + [('shipped', 0, True, [(p, part, SHIP_PARTS)]) for p in range(len(ship)) for part in range(SHIP_PARTS)],
                f'{ncorpus} generated programs (every nesting chain of depth <= {depth} over function/if/if-elif-else/while/for) and the '
                f'{len(ship)} shipped include files: unmutated, every single-token deletion/duplication/adjacent swap, every closing keyword '
-               'deleted, trailing backslash on the last line', expected=corpus_expected + ship_expected),
+               'deleted, trailing backslash on the last line, each of 6 near-miss suffixes glued to every number token', expected=corpus_expected + ship_expected),
         Family('columns', fam_columns, col_shards,
                f'{len(STMT_KINDS)} statement kinds x fault tokens {list(FAULTS)} x {len(TAILS)} tails, fault token at every column up to {MAXCOL} '
                '(indent 0..3 + chain of up to 100 operands)', expected=columns_expected()),
@@ -1654,6 +1755,11 @@ def families(tier):
                f'{len(STMT_KINDS)} statement kinds x {len(CR_FAULTS)} faults (start / middle / call argument / end of the expression) x input forms '
                f'{list(CR_FORMS)} (iterable of lines ending in CR or CR CR; str ending in a lone CR or blank + CR) x {len(CR_INDENTS)} indents x '
                f'start lines {list(STARTS)}', expected=len(STMT_KINDS) * len(CR_FAULTS) * len(CR_FORMS) * len(CR_INDENTS) * len(STARTS)),
+        Family('numlit', fam_numlit, split(list(range(len(NUM_TOKENS))), 13),
+               f'{len(NUM_TOKENS)} number-literal near misses (1e, 1e+, 2.5E-, 1e5, 10em, 1else, 1., 1..2, .5, 1_000, 0x10, 1e+400, 00, non-ASCII digits, '
+               f'400-digit runs ...) x {len(NUM_PLACES)} placements (alone, either side of an operator, call argument, glued to the right of ) / a string / '
+               f'a digit / an identifier / an operator, after a unary minus) x {len(STMT_KINDS)} statement kinds (start lines {list(STARTS)}) and '
+               'parse_expression directly', expected=len(NUM_TOKENS) * len(NUM_PLACES) * (len(STMT_KINDS) * len(STARTS) + 1)),
         Family('prefix', fam_prefix, [(tier, cuts[i], cuts[i + 1]) for i in range(64) if cuts[i + 1] > cuts[i]],
                f'{nbases} base texts (keyword sequences <= {3 if quick else 4} lines, soup lines <= {2 if quick else 3} tokens, all mutants of '
                f'{4 if quick else 16} corpus programs, fault columns up to {140 if quick else 200}) x {len(PREFIXES)} prefixes of 1..3 lines '
@@ -1662,13 +1768,13 @@ def families(tier):
 
 
 _CHECKS = {'keywords': check_keywords, 'soup': check_soup, 'mutants': check_mutants, 'columns': check_columns, 'caret': check_caret,
-           'nesting': check_nesting, 'contin': check_contin, 'prefix': check_prefix, 'linechars': check_linechars, 'bsonly': check_bsonly, 'includes': check_includes, 'openers': check_openers, 'overlap': check_overlap, 'crlines': check_crlines}
+           'nesting': check_nesting, 'contin': check_contin, 'prefix': check_prefix, 'linechars': check_linechars, 'bsonly': check_bsonly, 'includes': check_includes, 'openers': check_openers, 'overlap': check_overlap, 'crlines': check_crlines, 'numlit': check_numlit}
 
 
 def replay(family, case):
     acc = Acc(family)
     case = {k: v for k, v in case.items() if k in ('idx', 'tok', 'src', 'depth', 'prog', 'mut', 'kind', 'fault', 'tail', 'f', 'len', 'col',
-                                                    'shape', 'stmt', 'variant', 'run', 'pos', 'ws', 'ind', 'cm', 'base', 'ch', 'cls', 'faulty', 'eol', 'part', 'at', 'n', 'bs', 'ctx', 'trail', 'opener', 'scen', 'layout', 'pre', 'tpl', 'indent', 'form', 'prefix', 'start')}
+                                                    'shape', 'stmt', 'variant', 'run', 'pos', 'ws', 'ind', 'cm', 'base', 'ch', 'cls', 'faulty', 'eol', 'part', 'at', 'n', 'bs', 'ctx', 'trail', 'opener', 'scen', 'layout', 'pre', 'tpl', 'indent', 'form', 'place', 'prefix', 'start')}
     if family == 'prefix':
         check_prefix(case, acc)
     else:
